@@ -76,7 +76,7 @@ def valid_value(rng, func, kw, ctxd):
             "bump_pre_release_num": [0, 1], "bump_epoch": [0, 1], "hash_branch_len": [1, 5, 9]}
     strs = {"source": ["none", "stdin"], "input_format": ["auto", "semver", "pep440"], "output_format": ["semver", "pep440", "zerv"],
             "output_template": ["{{ semver }}", "v{{ major }}", "x", "{{ dev }}", "", "{{ epoch }}{{ post }}", "  {{ major }}  ", "a\rb", "{{ major }}\r\n{{ minor }}", "x\r", "é{{ major }}日本", "{{ major }}\n\n{{ minor }}\t."],
-            "output_prefix": ["v", "release-", "", "p\rq", "é"],
+            "output_prefix": ["v", "release-", "", "p\rq", "é", "  v", "\tv", "\nrelease-", " ", "v ", "\x0bv", "\u00a0v", "\u2003v"],
             "schema": ["standard", "standard-base", "standard-context"] + ([] if func == "flow" else ["calver", "calver-base-context"]),
             "schema_ron": ["(core:[var(Major), var(Minor)], extra_core:[], build:[])"], "tag_version": ["1.2.3", "v2.0.0-rc.1", "1.0a1"],
             "bumped_branch": ["main", "feature/x", "", "wip/é-日本", "a b"], "bumped_commit_hash": ["gabcdef123", "0000000"],
